@@ -136,6 +136,10 @@ Chan(e) ==
 R(t, k, req, alts, parts) == [t |-> t, k |-> k, req |-> req, alts |-> alts, parts |-> parts, sp |-> "none"]
 One(t, k, req, e) == R(t, k, req, {}, << {e} >>)
 Free(t, k) == R(t, k, {}, {}, << {"free"} >>)
+(* sp = "occupied": the request's target is already taken (an existing account / folder / news item / file at the
+   destination): with the privilege the request may fail for that reason or replace the occupant - not judged;
+   without it, nothing may be touched, and there is something to lose. *)
+Occ(t, k, req, e) == [One(t, k, req, e) EXCEPT !.sp = "occupied"]
 
 Table == {
   R(101, "board", {20}, {{}}, << {"board.read"} >>),       \* the document lists no privilege for Get Messages
@@ -232,7 +236,16 @@ Table == {
   One(400, "art/id2", {20}, "news.read"), One(400, "art/noflavor", {20}, "news.read"),
   One(410, "post/id2", {21}, "news.post"), One(410, "post/reply", {21}, "news.post"),
   One(411, "art/id2", {33}, "news.art.delete"), One(411, "art/norecurse", {33}, "news.art.delete"),
-  R(371, "cat/extra", {20}, {{}}, << {"news.read"} >>)
+  R(371, "cat/extra", {20}, {{}}, << {"news.read"} >>),
+  (* something to lose at the target (every world also holds stale partial uploads and side files at every upload
+     target, see harness/fam/authz/handle.go) *)
+  Occ(350, "new/exists", {14}, "acct.create"), Occ(350, "new/orphan", {14}, "acct.create"),
+  Occ(349, "create/orphan", {14}, "acct.create"),
+  Occ(381, "bundle/exists", {36}, "news.bundle.create"), Occ(382, "cat/exists", {34}, "news.cat.create"),
+  Occ(205, "root/exists", {5}, "folder.create"),
+  Occ(208, "file/exists", {4}, "file.move"), Occ(209, "file/exists", {31}, "alias.make"),
+  Occ(207, "file.rename/exists", {3}, "file.rename"),
+  One(112, "new/chat", {11}, "chat.open")
 }
 
 Types == {r.t : r \in Table}         \* the 43 registered transaction types
